@@ -6,7 +6,8 @@ from ..core import Fail
 
 PID = "C20"
 RULE = ("shapes of every kind (Empty, Whole, simple bounded/unbounded, holes, several components) whose boundaries mix "
-        "segments of degree 1, 2 and 3 (degree checked AFTER construction, which degree-reduces), plotted with "
+        "segments of degree 1, 2 and 3 (degree checked AFTER construction, which degree-reduces), a quarter of the curved "
+        "segments with a zero-length handle (two coincident consecutive control points), plotted with "
         "ShapePloter on an Agg canvas; observables: number, order and kind of the patches added to the axes, "
         "Path.vertices / Path.codes of every patch decoded by the harness's own reader of matplotlib path codes, face "
         "colours (filled vs white hole), background, shape data before/after; non-trivial = at least one curved segment "
@@ -21,6 +22,10 @@ def _curvy(rng, vs, degs):
         d = rng.choice(degs)
         mid = [((1 - F(t, d)) * a[0] + F(t, d) * b[0] + F(rng.choice([-2, -1, 1, 2]), 8) * (1 if t % 2 else -1),
                 (1 - F(t, d)) * a[1] + F(t, d) * b[1] + F(rng.choice([-2, -1, 1, 2]), 8)) for t in range(1, d)]
+        if d >= 2 and rng.random() < 0.25:
+            # coincident consecutive control points (a zero-length handle): still a segment of degree d
+            k = rng.choice([0, d - 1])
+            mid[k if k == 0 else -1] = a if k == 0 else b
         j.append([a] + mid + [b])
     return j
 
